@@ -195,6 +195,22 @@ INFO = {
  ('10','C18','m2'): ("poll moves the error out of the shared state (take) on the ready path: a clone of the future, or a second await by reference, then yields Ok(items so far)", []),
  ('10','C19','m1'): ("the error path only reads the terminated flag: an error accepted first, then a completion that gets past the operators' other protections", ['C01']),
  ('10','C19','m2'): ("the terminal gate uses mem::take instead of mem::replace(.., true): every terminal counts as the first", ['C01']),
+ ('11','C03','m1'): ("skip_until: the trigger's complete goes through sink_complete and the trigger is subscribed first: a trigger that completes with no items inside its own subscribe ends the stream", []),
+ ('11','C03','m2'): ("amb's complete callback no longer checks is_win: X signals first, a source that has emitted nothing completes, X continues - the result completes and X is torn down", []),
+ ('11','C04','m1'): ("Subject::error clears its observer map after notifying (duplicate of C04-m13)", []),
+ ('11','C04','m2'): ("amb stores its winner in an AtomicI32 with 0 = undecided, and 0 is a valid serial: the last-listed source wins, then another source's event re-claims the race - the winner's error is lost (same change as C11-m20)", ['C03', 'C11']),
+ ('11','C06','m1'): ("new_observer no longer unsubscribes the observer it hands out for an already ended stream: the stream ends between an operator deciding to subscribe a further source and doing it (delivered as C05/m2)", []),
+ ('11','C08','m1'): ("the abort flag's read guard stays alive while a task runs (tail-expression temporary): abort from inside a task blocks on its own read lock", ['C07']),
+ ('11','C08','m2'): ("stop takes abort.write before the queue mutex (AB-BA with the worker; same mechanism as C07-m12)", ['C07']),
+ ('11','C09','m1'): ("bounded backlog (1024) with back-pressure in post: the emitter runs more than a thousand events ahead of a subscriber that waits for it", []),
+ ('11','C10','m1'): ("BehaviorSubject takes its hand-over backlog with swap_remove(0): three or more values / a terminal arrive while one subscriber is inside its initial-value callback", ['C12']),
+ ('11','C10','m2'): ("ReplaySubject drains its hand-over backlog in one pass and goes live in a separate step: something pushed during the replay, and more while that backlog is handed over", ['C12']),
+ ('11','C12','m1'): ("ReplaySubject walks its live history by index instead of copying it: a push that lands inside one subscriber's replay is delivered twice", ['C10']),
+ ('11','C12','m2'): ("BehaviorSubject takes the newest buffered event per turn (split_off): two or more pushes land in one subscriber's hand-over window", ['C10']),
+ ('11','C13','m1'): ("Subject::fetch_observers prunes unsubscribed observers and the teardown skips the hook when remove finds nothing: the hot source emits after the last leaver's callbacks are cleared but before its teardown runs - the count never reaches 0", []),
+ ('11','C13','m2'): ("ReplaySubject stores its inner registration only if the subscriber is still subscribed after registering: the first subscriber of replay() ends while it is being registered", ['C10']),
+ ('11','C14','m1'): ("take_last reuses an operator-level buffer when Arc::strong_count says nobody else holds it (check and clone not atomic): two threads subscribe the same value at once", []),
+ ('11','C14','m2'): ("retry(n) rebuilt on retry_when with a counting predicate built once per observable value: earlier subscriptions that recovered after a retry use up the budget of later ones", ['C04']),
  ('3','C14','m2'): ("amb's winner cell hoisted out of the per-subscription closure: a second subscription in which a source in a different position signals first", []),
 }
 
